@@ -28,6 +28,7 @@ fn fails_when_released(trigger: &Vec<KeyCode>, key: &KeyCode) -> bool {
 }
 
 #[derive(Debug)]
+#[cfg_attr(ellbur_totalmapper_verif, derive(Clone))]
 struct State {
   input_pressed_keys: Vec<KeyCode>,
   active_mappings: Vec<Mapping>,
@@ -815,3 +816,23 @@ mod tests {
   }
 }
 
+
+// Verification hook (no behaviour change): lets an external harness explore the
+// real step function state by state. Compiled only with --cfg ellbur_totalmapper_verif.
+#[cfg(ellbur_totalmapper_verif)]
+pub struct VerifSnapshot(State);
+
+#[cfg(ellbur_totalmapper_verif)]
+impl Mapper {
+  pub fn verif_fingerprint(&self) -> String {
+    format!("{:?}", self.state)
+  }
+  
+  pub fn verif_snapshot(&self) -> VerifSnapshot {
+    VerifSnapshot(self.state.clone())
+  }
+  
+  pub fn verif_restore(&mut self, snapshot: &VerifSnapshot) {
+    self.state = snapshot.0.clone();
+  }
+}
